@@ -713,10 +713,7 @@ Definition do_shutdown (c : cfg) (abort : bool) (s : state) : res (state * list 
   let s0 := set_shut true s in
   (* tasks.Wait(): every running / queued call returns (cancelled); its arguments are released *)
   do '(s1, o1) <- release_all_args c (s_ans s0) s0;
-  (* ... and so do the calls that reached a local server directly *)
-  let ol := map (fun p => LAppRes (snd p) 1) (s_lcalls s1) in
-  let s1 := set_lcalls [] s1 in
-  let oq := ol ++ fail_questions (s_qs s1) 0 in
+  let oq := fail_questions (s_qs s1) 0 in
   let answers := s_ans s1 in
   let exports := s_exp s1 in
   let s2 := set_handles (map fail_handle (s_handles s1))
